@@ -500,6 +500,9 @@ func (p *c05Probe) Run(input []byte) {
 		case c05AttrInUp:
 			exact = c05WrapAttr(input)
 			keep = append([]byte{}, exact...)
+			if p.slot != nil {
+				p.slot.in = keep
+			}
 			m, perr, pi = p.callBody(bgp.BGP_MSG_UPDATE, exact)
 		}
 		if pi != nil {
